@@ -17,6 +17,8 @@ Line protocol for the URL model (domain `url`).  Byte strings are lower-case hex
   url play <url> <n> <order> <auth> <pause>     → trace
   url record <url> <n> <order> <auth> <pause>   → trace
   url cam <url> <sdpControl | N> <k | N> <contentBase>*k <m> <control>*m   → trace
+  url sw <url> <n|s|u> <keepalive> <sdpControl | N> <k | N> <cbTemplate>*k <m> <control>*m <h> <location>*h   → trace
+        (redirect chain, automatic switch to TCP: s = TCP transport in the SETUP answer, u = UDP timeout)
 
 trace = `L:<METHOD>:<target>`* `D|A:<p>:<q>:<authed>`/`S:<p>:<q>:<authed>:<before>`/`P|R|Z:<p>:<q>:<medias>`* `ok`|`fail:<step>`
 -/
@@ -135,6 +137,19 @@ def mk : IO Handler := do
       match n.toNat? with
       | some n => return hex (digits n)
       | none => return "bad-op"
+    | "sw" :: u :: mode :: ka :: c :: rest =>
+      -- url sw <url> <mode n|s|u> <keepalive> <sdpControl | N> <k | N> <cbTemplate>*k <m> <control>*m <h> <location>*h
+      match unhex u, optHex c, takeOptList rest with
+      | some u, some c, some (cb, rest2) =>
+        match takeOptList rest2 with
+        | some (some ctls, rest3) =>
+          match takeOptList rest3 with
+          | some (some locs, []) =>
+            let sw := if mode == "s" then Switch.setupTCP else if mode == "u" then Switch.udpTimeout else Switch.none
+            return showTrace (switchFlow u locs cb c ctls sw (ka == "1"))
+          | _ => return "bad-op"
+        | _ => return "bad-op"
+      | _, _, _ => return "bad-op"
     | "cam" :: u :: c :: rest =>
       match unhex u, optHex c, takeOptList rest with
       | some u, some c, some (cb, rest2) =>
